@@ -11,6 +11,7 @@ mod disthdr;
 mod edges;
 mod etf;
 mod frag;
+mod framing;
 mod io;
 mod order;
 mod term_json;
@@ -35,6 +36,7 @@ fn main() {
         "control-obs" => control::run(rest),
         "dh-encode" => disthdr::run_encode(rest),
         "dh-edges" => disthdr::run_edges(rest),
+        "framing-run" => framing::run(rest),
         other => {
             eprintln!("unknown subcommand {other}");
             2
